@@ -376,7 +376,7 @@ def cases_c05(types, rng, tier):
                 continue
             spec = keyspec_list(keys)
             ty = n["ty"]
-            probe = O.Expect(inst, {}).run("ref" if "any" in t["traits"] and n["lk"] == "leaf" else "jget", keys, BIG)
+            probe = O.Expect(inst, {}).run("jget", keys, BIG)
             if probe is not None and not probe.startswith("ok"):
                 continue  # leaf not reachable in this runtime state (absent variant etc.)
             if ty in ("f32", "f64"):
@@ -458,7 +458,31 @@ def cases_c16(types, rng, tier):
     """no-panic: the other streams' inputs plus arbitrary garbage; the oracle only requires
     a result (no `panic`)"""
     c = VCases(types)
-    pool = ["/", ".", "a", "é", "😀", "'", "[", "]", "0", "1", "9", "-", "+", " ", "\x00", "\U0010ffff", "foo", "bar"]
+    pool = ["/", ".", "a", "é", "😀", "'", "[", "]", "0", "1", "9", "-", "+", " ", "\x00", "\U0010ffff", "foo", "bar",
+            "18446744073709551615", "18446744073709551616", "18446744073709551619", "0018446744073709551617", "340282366920938463463374607431768211456"]
+    numerals = ["18446744073709551615", "18446744073709551616", "18446744073709551617", "18446744073709551619",
+                "0018446744073709551616", "184467440737095516160", "340282366920938463463374607431768211456",
+                "99999999999999999999999999999999999999999", "+18446744073709551616", "9223372036854775808"]
+    for t in c.types:
+        st = t["states"][0]
+        # decimal index strings around the usize boundary at every numbered / array level
+        for keys, idx, kind, n in paths(st["inst"], limit=30):
+            if kind == "leaf" or (n["k"] == "node" and n["names"] is not None):
+                continue
+            for num in numerals:
+                ks = as_strings(keys) + [("s", num)]
+                ops = []
+                for spec in (keyspec_list(ks), keyspec_path(ks), f"J:{enc(''.join('[' + k[1] + ']' for k in ks))}"):
+                    if spec is None:
+                        continue
+                    if "ser" in t["traits"]:
+                        ops.append(f"jget|{spec}|16")
+                    if "de" in t["traits"]:
+                        ops.append(f"jset|{spec}|{enc('1')}")
+                    if "any" in t["traits"]:
+                        ops.append(f"ref|{spec}")
+                if ops:
+                    c.add(t, st["sid"], {}, ops, None, f"index numeral {num} on {t['label']} below {keys}", "numeral")
     for t in c.types:
         for st in t["states"]:
             for _ in range(6 if tier == "quick" else 60):
